@@ -78,3 +78,110 @@ Definition lazy_verdict (t : tree) (fl : file) (rxs : list regex) (tbl : list (s
 Definition lazy_detail (t : tree) (fl : file) (rxs : list regex) (tbl : list (str * regex)) (supplied : globals) (matches : list (N * qmatch)) :=
   match run_lazy t fl config0 supplied None rxs rx_captures (the_call t tbl) default_fuel matches [] with
   | Ok (s, _) => Ok (canon_graph (l_graph s)) | Err e => Err e | Panic p => Panic p | OutOfFuel => OutOfFuel end.
+
+(* ---- generic single run used by the history / cancellation / debug / error-context streams ---- *)
+Record run_in := {
+  ri_lazy : bool;
+  ri_file : file;
+  ri_rxs : list regex;
+  ri_tbl : list (str * regex);
+  ri_supplied : globals;
+  ri_smatches : list (list qmatch);      (* per-stanza raw matches (strict) *)
+  ri_lmatches : list (N * qmatch);       (* raw matches of the merged query (lazy) *)
+}.
+Definition run_one (t : tree) (cfg : config) (budget : option N) (r : run_in) (g0 : graph)
+  : outcome exec_error (graph * polls) :=
+  if ri_lazy r then
+    match run_lazy t (ri_file r) cfg (ri_supplied r) budget (ri_rxs r) rx_captures (the_call t (ri_tbl r)) default_fuel (ri_lmatches r) g0 with
+    | Ok (s, p) => Ok (l_graph s, p) | Err e => Err e | Panic x => Panic x | OutOfFuel => OutOfFuel end
+  else
+    match run_strict t (ri_file r) cfg (ri_supplied r) budget (ri_rxs r) rx_captures (the_call t (ri_tbl r)) default_fuel (ri_smatches r) g0 with
+    | Ok (s, p) => Ok (s_graph s, p) | Err e => Err e | Panic x => Panic x | OutOfFuel => OutOfFuel end.
+Definition drop_polls {E A} (r : outcome E (A * polls)) : outcome E A :=
+  match r with Ok (a, _) => Ok a | Err e => Err e | Panic x => Panic x | OutOfFuel => OutOfFuel end.
+
+(* C09: a history of execute_into calls on one graph; stops at the first failing call *)
+Fixpoint run_history (t : tree) (runs : list run_in) (g : graph) : outcome exec_error graph :=
+  match runs with
+  | [] => Ok g
+  | r :: rs => match drop_polls (run_one t config0 None r g) with
+               | Ok g' => run_history t rs g'
+               | other => other
+               end
+  end.
+Definition c09_verdict (t : tree) (g0 : graph) (runs : list run_in) (x : expect) : N :=
+  compare_outcome (run_history t runs g0) x.
+Definition c09_detail (t : tree) (g0 : graph) (runs : list run_in) :=
+  match run_history t runs g0 with Ok g => Ok (canon_graph g) | Err e => Err e | Panic x => Panic x | OutOfFuel => OutOfFuel end.
+
+(* C11: result and poll-label trace without cancellation; cancellation at sampled poll indices *)
+Definition c11_verdict (t : tree) (r : run_in) (impl_trace : list N) (x : expect) (samples : list (N * N)) : N :=
+  let res := run_one t config0 None r [] in
+  match compare_outcome (drop_polls res) x with
+  | 0 =>
+      let trace_ok := match res with
+                      | Ok (_, p) => list_eqb N.eqb (rev (p_trace p)) impl_trace
+                      | _ => true       (* a failing run has no final poll state in the model *)
+                      end in
+      if negb trace_ok then 10
+      else if forallb (fun kl : N * N =>
+                         match run_one t config0 (Some (fst kl)) r [] with
+                         | Err (ECancelled l) => N.eqb l (snd kl)
+                         | _ => false
+                         end) samples then 0 else 11
+  | c => c
+  end.
+Definition c11_detail (t : tree) (r : run_in) :=
+  match run_one t config0 None r [] with
+  | Ok (g, p) => Ok (canon_graph g, rev (p_trace p)) | Err e => Err e | Panic x => Panic x | OutOfFuel => OutOfFuel end.
+
+(* C15: debug attributes dbg_loc / dbg_var / dbg_match *)
+Definition debug_cfg : config :=
+  {| c_loc_attr := Some [100;98;103;95;108;111;99]; c_var_attr := Some [100;98;103;95;118;97;114];
+     c_match_attr := Some [100;98;103;95;109;97;116;99;104] |}.
+Definition c15_verdict (t : tree) (r : run_in) (x : expect) : N :=
+  compare_outcome (drop_polls (run_one t debug_cfg None r [])) x.
+Definition c15_detail (t : tree) (r : run_in) :=
+  match drop_polls (run_one t debug_cfg None r []) with Ok g => Ok (canon_graph g) | Err e => Err e | Panic x => Panic x | OutOfFuel => OutOfFuel end.
+
+(* C20: the outermost statement context(s) of an execution error:
+   (statement location, stanza location, start position of the matched node, its kind) *)
+Definition ctx_obs := (loc * loc * (N * N) * str)%type.
+Definition ctx_view (t : tree) (c : stmt_ctx) : ctx_obs :=
+  match node_at t (sc_node c) with
+  | Some nd => (sc_stmt c, sc_stanza c, tn_start nd, tn_kind nd)
+  | None => (sc_stmt c, sc_stanza c, (4294967295, 4294967295), [])
+  end.
+Definition outer_ctx (t : tree) (e : exec_error) : list ctx_obs :=
+  match e with EInContext (CtxStmts l) _ => map (ctx_view t) l | _ => [] end.
+Definition ctx_obs_eqb (a b : ctx_obs) : bool :=
+  let '(s1, z1, p1, k1) := a in let '(s2, z2, p2, k2) := b in
+  N.eqb (fst s1) (fst s2) && N.eqb (snd s1) (snd s2) && N.eqb (fst z1) (fst z2) && N.eqb (snd z1) (snd z2) &&
+  N.eqb (fst p1) (fst p2) && N.eqb (snd p1) (snd p2) && str_eqb k1 k2.
+(* codes: 0 agree; 2/3 success mismatch; 4 root cause differs; 20 context list differs; 21 model says bare Cancelled-like no context *)
+Definition c20_verdict (t : tree) (r : run_in) (impl_code : N) (impl_ctx : list ctx_obs) : N :=
+  match drop_polls (run_one t config0 None r []) with
+  | Ok _ => 2
+  | Err e => if negb (N.eqb (error_code (root_cause e)) impl_code) then 4
+             else if list_eqb ctx_obs_eqb (outer_ctx t e) impl_ctx then 0 else 20
+  | Panic _ => 5
+  | OutOfFuel => 7
+  end.
+Definition c20_detail (t : tree) (r : run_in) :=
+  match drop_polls (run_one t config0 None r []) with
+  | Err e => Some (error_code (root_cause e), outer_ctx t e)
+  | _ => None end.
+
+(* C03 / C04: one program in both modes against both expectations *)
+Definition with_lazy (r : run_in) (b : bool) : run_in :=
+  {| ri_lazy := b; ri_file := ri_file r; ri_rxs := ri_rxs r; ri_tbl := ri_tbl r; ri_supplied := ri_supplied r;
+     ri_smatches := ri_smatches r; ri_lmatches := ri_lmatches r |}.
+Definition both_verdict (t : tree) (r : run_in) (xs xl : expect) : N :=
+  match compare_outcome (drop_polls (run_one t config0 None (with_lazy r false) [])) xs with
+  | 0 => match compare_outcome (drop_polls (run_one t config0 None (with_lazy r true) [])) xl with
+         | 0 => 0 | c => 100 + c end
+  | c => c
+  end.
+Definition both_detail (t : tree) (r : run_in) :=
+  (match drop_polls (run_one t config0 None (with_lazy r false) []) with Ok g => Ok (canon_graph g) | Err e => Err e | Panic x => Panic x | OutOfFuel => OutOfFuel end,
+   match drop_polls (run_one t config0 None (with_lazy r true) []) with Ok g => Ok (canon_graph g) | Err e => Err e | Panic x => Panic x | OutOfFuel => OutOfFuel end).
